@@ -21,9 +21,8 @@ def parse_uvl(path):
     from antlr4 import CommonTokenStream, FileStream
     from uvl.UVLCustomLexer import UVLCustomLexer
     from uvl.UVLPythonParser import UVLPythonParser
-    from flamapy.metamodels.fm_metamodel.transformations.uvl_reader import CustomErrorListener
     lexer = UVLCustomLexer(FileStream(path, encoding="utf-8"))
-    listener = CustomErrorListener()
+    listener = fmt.SyntaxErrors()
     lexer.removeErrorListeners()
     parser = UVLPythonParser(CommonTokenStream(lexer))
     parser.removeErrorListeners()
@@ -484,9 +483,18 @@ def emit_uvl(m, rng, g):
 
 
 def invalidate(text, rng, g):
-    kind = rng.randrange(5)
+    kind = rng.randrange(7)
     g.count("uvl_invalid", kind)
     lines = text.split("\n")
+    if kind in (5, 6):
+        # errors the parser reports AT A LINE BREAK: a bracket left open on the last constraint line;
+        # an operator without right operand at the end of a constraint line followed by another one
+        a, b, c = rng.sample(["A", "B", "C", "Dd", "E1"], 3)
+        head = f"features\n\t{a}\n\t\toptional\n\t\t\t{b}\n\t\t\t{c}\nconstraints\n"
+        op = rng.choice(["|", "&", "=>", "<=>"])
+        if kind == 5:
+            return head + rng.choice(["", f"\t{b} => {c}\n"]) + f"\t({a} {op} {b} & {c}\n"
+        return head + f"\t{a} {op} {rng.choice(['!', b + ' &', b + ' |'])}\n\t{c}\n"
     if kind == 0:      # unbalanced bracket
         idx = [i for i, l in enumerate(lines) if "{" in l or "(" in l or "[" in l]
         if idx:
